@@ -813,9 +813,22 @@ def explore_random(cr, nseq, length, do_search=True):
                     trail.append((w.effective, None, READ_ALL))
                     ff = [(0, kind, det) for kind, det in full_compare(w.cur)]
                 if hf or ff:
-                    # the first failure of this history: its last operation is the culprit; later ones are downstream
-                    culprit_trail = trail[:-1] if ff else trail        # without the look itself: the oracles read everything anyway
-                    report(ck, smi, oth, [t[2] for t in culprit_trail], hf, ff, 'random')
+                    # the first failure seen in this history; not every step is looked at, so the culprit is the last operation of
+                    # the shortest failing prefix
+                    full = [t[2] for t in (trail[:-1] if ff else trail)]
+                    done = False
+                    for k2 in range(1, len(full) + 1):
+                        w2 = fresh_world(smi, oth)
+                        h2 = SearchHook()
+                        run_ops(w2, full[:k2], h2)
+                        hf2 = [f for f in h2.findings if f[0] == k2 - 1]
+                        ff2 = final_findings(w2, h2)
+                        if hf2 or ff2:
+                            report(ck, smi, oth, full[:k2], hf2, [] if hf2 else ff2, 'random (shortest failing prefix)')
+                            done = True
+                            break
+                    if not done:
+                        report(ck, smi, oth, full, hf, ff, 'random')
                     searching = False
                 else:
                     ck.count('search:random:clean-steps')
@@ -1040,8 +1053,11 @@ class SearchHook:
                 self.origin[id(part)] = 'split'
                 if id(m) in self.tainted or in_transaction(m):       # split copies the hydrogen counts instead of recalculating them
                     self.tainted.add(id(part))
-        if op[0] == 'union' and not op[2] and world.others and id(world.others[0]) in self.tainted:
-            self.tainted.add(id(m))
+        if op[0] == 'union' and e is None and world.others:
+            partner = world.others[1] if op[2] and len(world.others) == self.n_others + 1 else world.others[0]
+            if id(partner) in self.tainted or in_transaction(partner) or (op[2] and in_transaction(m)):
+                # the copy of a molecule inside an open transaction carries its not yet recalculated atoms: outside the contract
+                self.tainted.add(id(world.others[0]) if op[2] and len(world.others) == self.n_others + 1 else id(m))
         if e is None and id(m) not in self.tainted and op[0] not in ('swap', 'exit_exn') and (op[0] == 'exit_ok' or not self.pre_txn):
             for det in stereo_locality(self.pre_comp, comp_snapshot(m)):
                 self.findings.append((i, 'stereo-locality', f'{op}: {det}'))
@@ -1176,7 +1192,7 @@ def classify(cur, other, ops, hook_findings, final):
         return None
     if k == 'add_bond' and op[3] == 8 and kinds <= {'bond-labels'}:
         return 'add_bond-special-no-labels' if clean(attempt(cur, other, ops, post=_labels)) else None
-    if k == 'remap' and kinds <= {'labels'} and all('_ring_sizes' in f[2] or '_in_ring' in f[2] for f in final):
+    if (k == 'remap' or (k == 'union' and op[1])) and kinds <= {'labels'} and all('_ring_sizes' in f[2] or '_in_ring' in f[2] for f in final):
         # known: which rings the SSSR picks depends on the numbering; remap keeps the ring marks of the old choice
         return 'remap-ring-marks-sssr-choice' if clean(attempt(cur, other, ops, post=_labels)) else None
     if k == 'add_bond' and op[3] == 8 and kinds <= {'stereo', 'cache'}:
